@@ -219,3 +219,30 @@ def indent_shapes(run_dir, cols=(0, 1, 2, 4, 6, 8), bases=(0, 4), max_lines=5):
         out.append(''.join(' ' * c + line + '\n' for c, line in zip(ind, sk[k - 1])))
     os.remove(os.path.join(run_dir, 'shapes.dump'))
     return out, res
+
+
+# ---- string-literal shapes (spec StrLits) -----------------------------------------------------------
+def string_literals(run_dir, max_body=3):
+    """-> list of `x = <literal>` programs for every state of StrLits"""
+    from . import tlc as _tlc
+    import re as _re
+    _tlc.prepare(run_dir, ['StrLits'])
+    res = _tlc.run(run_dir, 'StrLits', 'SPECIFICATION Spec\nCONSTANTS MaxBody = %d\n' % max_body, workers=4,
+                   dump='lits', timeout=600)
+    Q = {'sq': "'", 'dq': '"', 'tsq': "'''", 'tdq': '"""'}
+    out = []
+    txt = open(os.path.join(run_dir, 'lits.dump')).read()
+    for block in _re.split(r'\nState \d+:\n', '\n' + txt)[1:]:
+        st = {m.group(1): _tlc.parse_value(m.group(2).strip()) for m in _re.finditer(r'/\\ (\w+) = (.*)', block)}
+        if len(st) != 4:
+            continue
+        q = Q[st['quote']]
+        other = '"' if q[0] == "'" else "'"
+        piece = {'char': 'a', 'other': other, 'escown': '\\' + q[0], 'contin': '\\\n', 'newline': '\n',
+                 'braces': '{x}', 'ownown': q[0] * 2 if len(q) == 3 else 'z', 'space': ' ', 'backslash': '\\\\'}
+        lit = st['prefix'] + q + ''.join(piece[p] for p in st['body']) + (q if st['closed'] else '')
+        out.append('x = %s\n' % lit)
+        if st['closed']:
+            out.append('y = [%s, 1]\nz = 2\n' % lit)
+    os.remove(os.path.join(run_dir, 'lits.dump'))
+    return sorted(set(out)), res
